@@ -56,9 +56,24 @@ def parseCall (c : String) : Option Call :=
   else match c with
     | "recv" => some .recv | "header" => some .header | "closesend" => some .closeSend | _ => none
 
+/-- the monitor's own record of the history (independent of the model state) -/
+structure Hist where
+  cancellable : Bool := false
+  canceled : Bool := false
+  nAttempts : Nat := 0
+  deriving Inhabited
+
 /-- monitors on what the implementation printed -/
-def monitor (rep : Report) (ln : Nat) (obs : String) : Report :=
+def monitor (rep : Report) (ln : Nat) (h : Hist) (op : String) (oa : List (String × String)) (obs : String) : Report :=
   let a := args (obs.splitOn " ")
+  let atts := if arg a "attempts" == "" then [] else (arg a "attempts").splitOn ","
+  -- C12: the first message is visible to the picker: a creation attempt made by this SendMsg carries its message
+  let rep := if op == "call" && (arg oa "c").startsWith "send:" && atts.length > h.nAttempts &&
+                atts.getLast? != some ((arg oa "c").drop 5).toString then fail rep ln "first_message_visible" else rep
+  -- C12: a receiver does not stay blocked once creation failed or the context ended
+  let failedCreation := atts.length > (arg a "created").toNat?.getD 0
+  let rep := if arg a "blocked" != "" && (failedCreation || (h.cancellable && h.canceled) || (op == "cancel" && h.cancellable))
+             then fail rep ln "recv_progress" else rep
   let rep := if obs.contains "PANIC" then { fail rep ln "stream_methods_total" with monitorFails := rep.monitorFails + 1 } else rep
   let rep := match (arg a "created").toNat? with
     | some n => if n ≤ 1 then rep else fail rep ln "create_at_most_once"
@@ -71,16 +86,28 @@ def monitor (rep : Report) (ln : Nat) (obs : String) : Report :=
   let rep := if arg a "blocked" != "" && created then fail rep ln "recv_progress" else rep
   rep
 
-def handle (sess : Option St) (rep : Report) (ln : Nat) (toks : List String) (obs : String) : Option St × Report :=
+structure Sess where
+  model : Option St := none
+  hist : Hist := {}
+
+instance : Inhabited Sess := ⟨{}⟩
+
+def handle (sess0 : Sess) (rep : Report) (ln : Nat) (toks : List String) (obs : String) : Sess × Report :=
   let a := args toks.tail
+  let lift (r : Option St × Report) (h : Hist) : Sess × Report := ({ model := r.1, hist := h }, r.2)
+  let sess := sess0.model
   match toks.head? with
   | some "new" =>
-    ({ rep with episodes := rep.episodes + 1 } |> fun rep => (some (init (arg a "ctx" == "cancel")), if obs == "ok" then rep else rep.msg s!"BAD line={ln}"))
+    lift ({ rep with episodes := rep.episodes + 1 } |> fun rep => (some (init (arg a "ctx" == "cancel")), if obs == "ok" then rep else rep.msg s!"BAD line={ln}"))
+      { cancellable := arg a "ctx" == "cancel" }
   | some "unary" =>
-    (sess, if obs == "unary=ok" then rep.bump "st.unary" else fail rep ln "unary_transparent")
+    (sess0, if obs == "unary=ok" then rep.bump "st.unary" else fail rep ln "unary_transparent")
   | some op =>
-    let rep := monitor rep ln obs
-    match sess with
+    let rep := monitor rep ln sess0.hist op a obs
+    let oa := args (obs.splitOn " ")
+    let atts := if arg oa "attempts" == "" then 0 else ((arg oa "attempts").splitOn ",").length
+    let hist : Hist := { sess0.hist with canceled := sess0.hist.canceled || op == "cancel", nAttempts := atts }
+    lift (match sess with
     | none => (none, rep.bump "st.skipped_after_divergence")
     | some s =>
       let st? : Option (Step × Tid) := match op with
@@ -108,7 +135,7 @@ def handle (sess : Option St) (rep : Report) (ln : Nat) (toks : List String) (ob
         let rep := if (rets.filter fun p => p.1 != t).length > 0 then rep.bump "st.waiter_woken" else rep
         let mine := summary s2 rets
         if mine == obs then (some s2, rep)
-        else (none, { rep.msg s!"DIVERGE line={ln} model={mine} impl={obs}" with diverged := rep.diverged + 1 })
-  | none => (sess, rep.msg s!"BAD line={ln}")
+        else (none, { rep.msg s!"DIVERGE line={ln} model={mine} impl={obs}" with diverged := rep.diverged + 1 })) hist
+  | none => (sess0, rep.msg s!"BAD line={ln}")
 
 end GcpVerif.Driver.StDrv
